@@ -1436,6 +1436,157 @@ fn section_a(v: &Vocab, fns: &[FnInfo]) -> Result<Vec<Def>, String> {
     Ok(defs)
 }
 
+
+// ------------------------------------------------------------ section C: arithmetic on byte positions
+
+/// Every piece of arithmetic on byte positions in a decoder function, in source order (locals renamed):
+/// `+` / `-` / `*` expressions (outermost), assignments and compound assignments, `let x = <integer literal>`.
+#[derive(Default)]
+struct Arith(Vec<String>);
+
+impl<'ast> Visit<'ast> for Arith {
+    fn visit_expr(&mut self, e: &'ast syn::Expr) {
+        match e {
+            syn::Expr::Binary(b)
+                if matches!(
+                    b.op,
+                    syn::BinOp::Add(_) | syn::BinOp::Sub(_) | syn::BinOp::Mul(_) | syn::BinOp::AddAssign(_) | syn::BinOp::SubAssign(_) | syn::BinOp::MulAssign(_)
+                ) =>
+            {
+                self.0.push(sq(e));
+            }
+            syn::Expr::Assign(_) => self.0.push(sq(e)),
+            _ => syn::visit::visit_expr(self, e),
+        }
+    }
+    fn visit_local(&mut self, l: &'ast syn::Local) {
+        if let Some(init) = &l.init {
+            if let syn::Expr::Lit(syn::ExprLit { lit: syn::Lit::Int(i), .. }) = &*init.expr {
+                self.0.push(format!("let {}={}", sq(&l.pat).replace("mut", ""), i.base10_digits()));
+                return;
+            }
+            if is_arith(&init.expr) {
+                self.0.push(format!("let {}={}", sq(&l.pat).replace("mut", ""), sq(&init.expr)));
+                return;
+            }
+        }
+        syn::visit::visit_local(self, l);
+    }
+    fn visit_field_value(&mut self, f: &'ast syn::FieldValue) {
+        if is_arith(&f.expr) {
+            self.0.push(format!("{}:{}", sq(&f.member), sq(&f.expr)));
+            return;
+        }
+        syn::visit::visit_field_value(self, f);
+    }
+}
+
+fn is_arith(e: &syn::Expr) -> bool {
+    matches!(strip_paren(e), syn::Expr::Binary(b) if matches!(b.op, syn::BinOp::Add(_) | syn::BinOp::Sub(_) | syn::BinOp::Mul(_)))
+}
+
+fn arith_of(f: &FnInfo) -> Vec<String> {
+    let mut a = Arith::default();
+    a.visit_block(&renamed(f));
+    a.0
+}
+
+/// `unescape_f_string_part`: the variable that holds the start of the current piece is the ONE local initialised
+/// with an integer literal (`let mut piece_start = 0;`) and assigned ONCE, `piece_start = <index> + <literal>`, where
+/// `<index>` is a plain local: → (initial value, step). Anything else is an extraction failure.
+fn piece_start_facts(f: &FnInfo) -> Result<(u64, u64), String> {
+    struct V {
+        lets: Vec<(String, u64)>,
+        assigns: Vec<(String, syn::Expr)>,
+        compound: Vec<String>,
+    }
+    impl<'ast> Visit<'ast> for V {
+        fn visit_local(&mut self, l: &'ast syn::Local) {
+            if let (syn::Pat::Ident(p), Some(init)) = (&l.pat, &l.init) {
+                if let syn::Expr::Lit(syn::ExprLit { lit: syn::Lit::Int(i), .. }) = &*init.expr {
+                    if let Ok(n) = i.base10_parse::<u64>() {
+                        self.lets.push((p.ident.to_string(), n));
+                    }
+                }
+            }
+            syn::visit::visit_local(self, l);
+        }
+        fn visit_expr_assign(&mut self, a: &'ast syn::ExprAssign) {
+            self.assigns.push((sq(&a.left), (*a.right).clone()));
+            syn::visit::visit_expr_assign(self, a);
+        }
+        fn visit_expr_binary(&mut self, b: &'ast syn::ExprBinary) {
+            if matches!(b.op, syn::BinOp::AddAssign(_) | syn::BinOp::SubAssign(_) | syn::BinOp::MulAssign(_)) {
+                self.compound.push(sq(b));
+            }
+            syn::visit::visit_expr_binary(self, b);
+        }
+    }
+    let mut v = V { lets: vec![], assigns: vec![], compound: vec![] };
+    v.visit_block(&f.block);
+    let what = "unescape_f_string_part";
+    let [(var, init)] = &v.lets[..] else {
+        return Err(format!("{what}: expected one local initialised with an integer literal (piece_start), found {}", v.lets.len()));
+    };
+    if !v.compound.is_empty() {
+        return Err(format!("{what}: compound assignment `{}` — the offset arithmetic is outside the understood shape", cut(v.compound[0].clone())));
+    }
+    let [(lhs, rhs)] = &v.assigns[..] else {
+        return Err(format!("{what}: expected one assignment (`{var} = <index> + <literal>`), found {}", v.assigns.len()));
+    };
+    if lhs != var {
+        return Err(format!("{what}: the assignment is to `{lhs}`, not to `{var}`"));
+    }
+    match rhs {
+        syn::Expr::Binary(b) if matches!(b.op, syn::BinOp::Add(_)) => match (strip_paren(&b.left), strip_paren(&b.right)) {
+            (syn::Expr::Path(p), syn::Expr::Lit(syn::ExprLit { lit: syn::Lit::Int(i), .. })) if p.path.get_ident().is_some() => {
+                Ok((*init, i.base10_parse::<u64>().map_err(|e| format!("{what}: {e}"))?))
+            }
+            _ => Err(format!("{what}: `{var} = {}` is not `<index> + <literal>`", cut(sq(rhs)))),
+        },
+        _ => Err(format!("{what}: `{var} = {}` is not `<index> + <literal>`", cut(sq(rhs)))),
+    }
+}
+
+/// Target `fspanfacts` → `Generated/FSpanFacts.lean`: the arithmetic on byte positions in the literal decoders
+/// (`unescape_f_string_part`, `unescape_str`, `unescape_char`, src/parser/expr.rs). A target of its own: a decoder
+/// whose arithmetic is outside the understood shape fails THIS extraction (and the theorems of Props/C06FSpans),
+/// while the parser model, its driver and the differential run keep working.
+pub fn fspanfacts(repo: &Path) -> Result<String, String> {
+    let mut fns: Vec<FnInfo> = vec![];
+    let parsed = find::parse(repo, EXPR)?;
+    collect_fns(EXPR, &parsed.items, &mut fns);
+    let mut out = String::from(
+        "/- GENERATED by /verif/extract (target `fspanfacts`) from src/parser/expr.rs — do not edit.\n   Arithmetic on byte positions in the literal decoders (see extract/src/targets/c06_parse.rs, section C). -/\nnamespace RotoV.Gen.FSpanFacts\n\n",
+    );
+    out.push_str(&section_c(&fns)?);
+    out.push_str("end RotoV.Gen.FSpanFacts\n");
+    Ok(out)
+}
+
+fn section_c(fns: &[FnInfo]) -> Result<String, String> {
+    let mut out = String::from("/-! ## arithmetic on byte positions in the literal decoders -/\n\n");
+    let f = get(fns, EXPR, None, "unescape_f_string_part")?;
+    let (init, step) = piece_start_facts(f)?;
+    out.push_str(&format!(
+        "/-- `unescape_f_string_part` (src/parser/expr.rs): `let mut piece_start = <this>;` -/\ndef fPieceInit : Nat := {init}\n\n\
+         /-- `unescape_f_string_part`: after a brace escape found at byte `i`, `piece_start = i + <this>` -/\ndef fPieceStep : Nat := {step}\n\n"
+    ));
+    for (owner, name, lean) in [
+        (None, "unescape_f_string_part", "arith_unescape_f_string_part"),
+        (None, "unescape_str", "arith_unescape_str"),
+        (None, "unescape_char", "arith_unescape_char"),
+        (Some("Parser"), "simple_literal", "arith_simple_literal"),
+    ] {
+        let f = get(fns, EXPR, owner, name)?;
+        out.push_str(&format!(
+            "/-- `{name}` (src/parser/expr.rs): every `+` / `-` / `*` expression (outermost), assignment and `let x = <integer>` in source order, locals renamed -/\ndef {lean} : List String := {}\n\n",
+            lean_list(&arith_of(f))
+        ));
+    }
+    Ok(out)
+}
+
 pub fn parsefacts(repo: &Path) -> Result<String, String> {
     let vocab = Vocab::load(repo)?;
     let mut fns: Vec<FnInfo> = vec![];
